@@ -954,6 +954,27 @@ xcheck_ccm(void)
                                                         goto done;
                                         }
         }
+        /* AAD length encoding boundaries (2-byte form up to 0xFEFF, 0xFFFE form above) */
+        {
+                static const int big[6] = { 0xFEFF, 0xFF00, 0xFF01, 0xFFFF, 0x10000, 0x10001 };
+                int b;
+
+                for (b = 0; b < 6; b++)
+                        for (len = 0; len <= 32; len += 16) {
+                                fill(key, 16);
+                                fill(nonce, 12);
+                                fill(baad, (size_t) big[b]);
+                                fill(pt, (size_t) len);
+                                evp_ccm_enc(EVP_aes_128_ccm(), key, nonce, 12, baad, big[b], pt,
+                                            ct, len, tag, 10);
+                                ref_ccm(1, key, 16, nonce, 12, baad, (size_t) big[b], pt, out,
+                                        (size_t) len, t2, 10);
+                                if (memcmp(out, ct, (size_t) len) || memcmp(tag, t2, 10)) {
+                                        fail("xcheck_ccm_big_aad", big[b], "mismatch");
+                                }
+                                n++;
+                        }
+        }
 done:
         report("xcheck_openssl_ccm", (int) n, before);
 }
